@@ -59,10 +59,13 @@ fn check_closure(
             Ok(None) => return Err(("not-found".into(), "cleaned history: object not found".into())),
             Err(e) => return Err(("error".into(), format!("cleaned history: {e}"))),
         };
+        // full equality: the projection (thread/patch timeline, comments, title, labels, history,
+        // tips), the serialised object, and the object's own PartialEq
         if a != b {
+            let what = if a.timeline != b.timeline { "timeline" } else if a.to_json() != b.to_json() { "projection" } else if a.obj != b.obj { "object (PartialEq)" } else { "serialised object" };
             return Err((
                 "trace-of-rejected-change".into(),
-                format!("with the rejected changes: {}; history without them: {}", a.to_json(), b.to_json()),
+                format!("{what} differs; with the rejected changes: {}; history without them: {}", a.to_json(), b.to_json()),
             ));
         }
     }
@@ -78,10 +81,14 @@ fn shard(args: &Args) {
     let work = std::env::current_dir().unwrap();
     let mut w = World::new(&work, kind);
     let mut rng = Rng(seed() ^ 0xC06);
-    let (mut ngraphs, mut nclosures, mut drift, mut nontrivial, mut bad) = (0i64, 0i64, 0i64, 0i64, 0i64);
+    let (mut ngraphs, mut nclosures, mut drift, mut nontrivial, mut bad, mut skipped) = (0i64, 0i64, 0i64, 0i64, 0i64, 0i64);
     for case in cases {
         let g = GraphSpec::from_case(&case);
         let idx = case["_i"].as_u64().unwrap_or(0);
+        if !(1..=g.m()).all(|k| World::supports(kind, g.cls(k))) {
+            skipped += 1;
+            continue;
+        }
         ngraphs += 1;
         let oids = w.materialise(&g, idx + seed() * 7919, idx % 2 == 1);
         let labels = label_map(&oids);
@@ -96,7 +103,7 @@ fn shard(args: &Args) {
             match check_closure(&mut w, &g, &oids, &labels, s, &mut pruned_some) {
                 Ok(a) => {
                     if si == 0 {
-                        if let Some(d) = model_diff(&case, &a) {
+                        if let Some(d) = model_diff(w.kind, &case, &a) {
                             drift += 1;
                             if drift <= 5 {
                                 out.emit(&json!({"ok": true, "drift": true, "case": case, "detail": d}));
@@ -119,7 +126,7 @@ fn shard(args: &Args) {
         }
     }
     out.emit(&json!({"summary": true, "graphs": ngraphs, "closures": nclosures, "evaluations": w.evals as i64,
-                     "stores": w.stores as i64, "drift": drift, "nontrivial": nontrivial, "failures": bad}));
+                     "stores": w.stores as i64, "drift": drift, "nontrivial": nontrivial, "failures": bad, "skipped": skipped}));
     out.finish();
 }
 
@@ -131,7 +138,12 @@ fn record(args: &Args) {
     let work = std::env::current_dir().unwrap();
     let mut w = World::new(&work, kind);
     let mut rng = Rng(seed() ^ 0x5EED_C06);
-    let classes = [("ok", 12), ("guest", 2), ("needs", 3), ("badSig", 1), ("rejectFirst", 1), ("rejectLater", 2)];
+    let classes = [
+        ("ok", 24), ("guest", 4), ("label", 3), ("needs", 6), ("badSig", 2), ("rejectLater", 4),
+        ("rf.redactMissing.d", 1), ("rf.redactMissing.g", 1), ("rf.editMissing.d", 2), ("rf.editMissing.g", 1),
+        ("rf.reactMissing.d", 1), ("rf.reactMissing.g", 1), ("rf.replyMissing.d", 1), ("rf.replyMissing.g", 1),
+        ("rf.badTitle.d", 1), ("rf.badTitle.g", 1), ("rf.label.g", 1),
+    ];
     for gid in 0..n {
         let m = 4 + rng.below(mmax - 3);
         let g0 = random_graph(&mut rng, m, &classes, 14);
@@ -152,10 +164,7 @@ fn record(args: &Args) {
             let k = 1 + rng.below(nns.min(3));
             targets.push((0..k).map(|_| rng.below(m + 1)).collect());
         }
-        let view = |o: &Observed| {
-            let lww = if o.lww() > 0 { rank[o.lww() as usize] as i64 } else { o.lww() };
-            json!({"log": o.log(), "lww": lww, "hist": o.hist, "tips": o.tips})
-        };
+        let view = |o: &Observed| view_json(o, &rank);
         for t in targets {
             let t: Vec<usize> = t.into_iter().collect::<BTreeSet<_>>().into_iter().collect();
             w.present(&refs_for(&t, &oids));
@@ -166,25 +175,22 @@ fn record(args: &Args) {
             match w.eval(&labels, false) {
                 Ok(Some(a)) => {
                     r["view"] = view(&a);
-                    if !a.labels.is_empty() {
-                        r["view"]["lww"] = json!(-4); // a label set by a refused change: make it visible
-                    }
                     let h: BTreeSet<usize> = a.hist.iter().filter(|x| **x >= 0).map(|x| *x as usize).collect();
                     w.present(&refs_for(&g.tips_of(&h), &oids));
                     match w.eval(&labels, false) {
                         Ok(Some(b)) => {
                             r["clean"] = view(&b);
-                            if a.full != b.full {
+                            if a.full != b.full || a.obj != b.obj {
                                 r["clean"]["lww"] = json!(-5); // objects differ beyond the projection
                             }
                         }
                         other => {
-                            r["clean"] = json!({"log": [], "lww": -3, "hist": [], "tips": [], "error": format!("{:?}", other.err())});
+                            r["clean"] = json!({"log": [], "comments": [], "lww": -3, "labels": -3, "hist": [], "tips": [], "error": format!("{:?}", other.err())});
                         }
                     }
                 }
-                Ok(None) => r["view"] = json!({"log": [], "lww": -2, "hist": [], "tips": []}),
-                Err(e) => r["view"] = json!({"log": [], "lww": -3, "hist": [], "tips": [], "error": e}),
+                Ok(None) => r["view"] = json!({"log": [], "comments": [], "lww": -2, "labels": -2, "hist": [], "tips": []}),
+                Err(e) => r["view"] = json!({"log": [], "comments": [], "lww": -3, "labels": -3, "hist": [], "tips": [], "error": e}),
             }
             out.emit(&r);
         }
